@@ -91,6 +91,8 @@ def point_alphabet(g, e, others, gauss_pts):
     # documented precondition: interior points at least 1e-5 away from the end points
     out = []
     for p in sorted(P):
+        if not 0.0 <= p <= L:
+            continue  # (tiny elements: the offset points of the alphabet can leave the parameter interval)
         if xa < p < xb and (p - xa <= 1.0001e-5 or xb - p <= 1.0001e-5):
             continue
         out.append(float(p))
@@ -124,7 +126,8 @@ def chunk(item):
     g, U, els, orc, SL = get_universe(key)
     T = key[1][-1]
     gp = gauss_quadrature_scheme(gorder).points
-    straight = key[0] != 'Circle'
+    import src.parametrization as _P
+    straight = isinstance(g, _P.PiecewisePolygon)  # the closed-form evaluation is defined on straight sides only
     out = {'n': 0, 'classes': {}, 'viols': [], 'exact_checks': 0}
     for e in els[lo:hi]:
         lvl = [k for k, (m, ee) in U.items() if e in ee][0]
@@ -263,7 +266,7 @@ def integral_task(item):
 UNIV = {'quick': [(c, (0., 1.), 1, 1) for c in CURVES] + [('UnitSquare', (0., 0.25), 0, 2), ('Circle', (0., 0.3, 1.), 0, 1)]
                  + [('ThinRect', (0., 2.0**-8), 0, 4), ('UnitSquare', (0., 1.), 0, 'deep:11')],  # custom thin rectangle, short end time: opposite sides are close in the plane and far along the boundary
         'thorough': [(c, (0., 1.), 2, 2) for c in CURVES] + [(c, (0., 0.25), 1, 3) for c in CURVES] + [(c, (0., 0.3, 1.), 1, 2) for c in CURVES]
-                    + [(c, (0., 1.), 0, 'deep:14') for c in CURVES] + [('ThinRect', (0., 2.0**-8), 1, 4), ('ThinRect', (0., 1.), 1, 2), ('Stadium', (0., 1.), 1, 2), ('BigCircle', (0., 1.), 1, 2)]}
+                    + [(c, (0., 1.), 0, 'deep:14') for c in CURVES] + [('ThinRect', (0., 2.0**-8), 1, 4), ('Stadium', (0., 1.), 1, 2), ('BigCircle', (0., 1.), 1, 2)]}
 INTEG = {'quick': [('UnitSquare', (0., 1.), 0, 1), ('Circle', (0., 1.), 0, 0)],
          'thorough': [(c, (0., 1.), 1, 1) for c in ('UnitSquare', 'Circle', 'LShape')]}
 
